@@ -1,5 +1,6 @@
 import Bnum.Drive.Util
 import Bnum.Model.AddSub
+import Bnum.Model.Misc
 import Bnum.Spec.Arith
 namespace Bnum.Drive.C01
 open Bnum Bnum.Drive
@@ -19,6 +20,10 @@ def handle : Handler := fun c op args =>
   let wrp (mo : List Nat) (z : Int) := some (showVal c mo, toHex (wrapU (m c) z))
   let sat (mo : List Nat) (signedRes : Bool) (z : Int) :=
     some (showVal c mo, toHex (Spec.saturating signedRes (m c) z))
+  -- strict forms: the value if the exact result is representable, otherwise a panic
+  let strict (mo : Outcome (List Nat)) (signedRes : Bool) (z : Int) :=
+    some (showOut (showVal c) mo,
+      if Spec.rep signedRes (m c) z then toHex (wrapU (m c) z) else "P")
   match c.signed, op, args with
   -- unsigned
   | false, "overflowing_add", [a, b] => do
@@ -154,6 +159,53 @@ def handle : Handler := fun c op args =>
   | true, "borrowing_sub", [a, b, ci] => do
     let a ← parseVal c a; let b ← parseVal c b; let ci ← parseBool ci
     pair (II.borrowingSub w a b ci) true (sv c a - sv c b - ci.toNat)
+  -- strict forms (`int/strict.rs`, `buint/strict.rs`, `bint/strict.rs`)
+  | false, "strict_add", [a, b] => do
+    let a ← parseVal c a; let b ← parseVal c b
+    strict (UI.strictAdd w a b) false (uv c a + uv c b)
+  | false, "strict_sub", [a, b] => do
+    let a ← parseVal c a; let b ← parseVal c b
+    strict (UI.strictSub w a b) false (uv c a - uv c b)
+  | false, "strict_neg", [a] => do
+    let a ← parseVal c a
+    strict (UI.strictNeg w a) false (- uv c a)
+  | false, "strict_add_signed", [a, b] => do
+    let a ← parseVal c a; let b ← parseVal c b
+    strict (UI.strictAddSigned w a b) false (uv c a + sv c b)
+  | true, "strict_add", [a, b] => do
+    let a ← parseVal c a; let b ← parseVal c b
+    strict (II.strictAdd w a b) true (sv c a + sv c b)
+  | true, "strict_sub", [a, b] => do
+    let a ← parseVal c a; let b ← parseVal c b
+    strict (II.strictSub w a b) true (sv c a - sv c b)
+  | true, "strict_neg", [a] => do
+    let a ← parseVal c a
+    strict (II.strictNeg w a) true (- sv c a)
+  | true, "strict_abs", [a] => do
+    let a ← parseVal c a
+    strict (II.strictAbs w a) true (Int.natAbs (sv c a))
+  | true, "strict_add_unsigned", [a, b] => do
+    let a ← parseVal c a; let b ← parseVal c b
+    strict (II.strictAddUnsigned w a b) true (sv c a + uv c b)
+  | true, "strict_sub_unsigned", [a, b] => do
+    let a ← parseVal c a; let b ← parseVal c b
+    strict (II.strictSubUnsigned w a b) true (sv c a - uv c b)
+  -- midpoint (`dbg` / `rel` selects `cfg(debug_assertions)`) and abs_diff
+  | false, "midpoint", [mode, a, b] => do
+    let dbg ← if mode = "dbg" then some true else if mode = "rel" then some false else none
+    let a ← parseVal c a; let b ← parseVal c b
+    some (showOut (showVal c) (UI.midpoint dbg w a b), toHex (wrapU (m c) ((uv c a + uv c b) / 2)))
+  | true, "midpoint", [mode, a, b] => do
+    let dbg ← if mode = "dbg" then some true else if mode = "rel" then some false else none
+    let a ← parseVal c a; let b ← parseVal c b
+    some (showOut (showVal c) (II.midpoint dbg w a b),
+      toHex (wrapU (m c) (Int.tdiv (sv c a + sv c b) 2)))
+  | false, "abs_diff", [a, b] => do
+    let a ← parseVal c a; let b ← parseVal c b
+    some (showVal c (UI.absDiff w a b), toHex (Int.natAbs (uv c a - uv c b)))
+  | true, "abs_diff", [a, b] => do
+    let a ← parseVal c a; let b ← parseVal c b
+    some (showVal c (II.absDiff w a b), toHex (Int.natAbs (sv c a - sv c b)))
   | _, _, _ => none
 
 end Bnum.Drive.C01
